@@ -1,0 +1,35 @@
+//go:build verif
+
+// Contracts for package models, read by /verif/engine (govc). Comments only.
+package models
+
+// ---------------------------------------------------------------- point.go (C06)
+
+// The group id: [name "\n"] k1 "=" v1 "," ... kn "=" vn over the dimension names in order,
+// with the empty string for a missing tag.
+//@ spec rec gidTags(tags map[string]string, names []string, n int) string =
+//@     ite(n <= 0, "", gidTags(tags, names, n-1) + ite(n-1 != 0, ",", "") + names[n-1] + "=" + ite(has(tags, names[n-1]), tags[names[n-1]], ""))
+
+//@ func ToGroupID
+//@   props C06 C05
+//@   opt strings=seq
+//@   modifies nothing
+//@   ensures len(dims.TagNames) == 0 ==> result == GroupID(ite(dims.ByName, name, ""))
+//@   ensures len(dims.TagNames) > 0 ==> result == GroupID(ite(dims.ByName, name + "\n", "") + gidTags(tags, dims.TagNames, len(dims.TagNames)))
+//@   loop 1
+//@     modifies nothing
+//@     invariant gf(&buf, content, string) == ""
+//@   loop 2
+//@     modifies gf(&buf, content, string)
+//@     invariant 0 <= _i && _i <= len(dims.TagNames)
+//@     invariant gf(&buf, content, string) == ite(dims.ByName, name + "\n", "") + gidTags(tags, dims.TagNames, _i)
+
+// "Two points belong to the same group exactly when they agree ... on every group-by tag
+// value": over the specification ToGroupID is proved against, for two dimensions (the shape of
+// the serialisation is the same for any number). Expected to fail for values containing the
+// delimiters; with delimiter-free values it holds.
+//@ lemma gidInjective2 props C06 seq: forall k1 string, k2 string, a1 string, a2 string, b1 string, b2 string ::
+//@     k1 != "" && k2 != "" && k1 < k2 && !strcontains(k1, ",") && !strcontains(k1, "=") && !strcontains(k2, ",") && !strcontains(k2, "=")
+//@     && k1 + "=" + a1 + "," + k2 + "=" + a2 == k1 + "=" + b1 + "," + k2 + "=" + b2 ==> a1 == b1 && a2 == b2
+// (Not claimed: the companion lemma "injective when the values contain no delimiter" -- word
+// equations with str.contains; all three solvers time out.)
